@@ -234,18 +234,25 @@ pub struct GenOpts {
     pub max_items: usize,
     /// every timer gets a duration (needed under TIMER_REQUIRES_TIME and for C02's core subset)
     pub timers_need_time: bool,
+    /// references may carry a quantity of another class than their definition (text vs number, other unit):
+    /// documented to warn, still valid — used by the monitors of the consumers (grouping, listing, crashes)
+    pub mix_ref_classes: bool,
 }
 
 impl GenOpts {
     pub fn canonical() -> Self {
-        GenOpts { extended: false, core: true, max_sections: 3, max_blocks: 4, max_items: 7, timers_need_time: false }
+        GenOpts { extended: false, core: true, max_sections: 3, max_blocks: 4, max_items: 7, timers_need_time: false, mix_ref_classes: false }
     }
     pub fn extended() -> Self {
-        GenOpts { extended: true, core: false, max_sections: 3, max_blocks: 4, max_items: 7, timers_need_time: true }
+        GenOpts { extended: true, core: false, max_sections: 3, max_blocks: 4, max_items: 7, timers_need_time: true, mix_ref_classes: false }
+    }
+    /// extended, with references free to change the quantity class (not warning-free)
+    pub fn extended_mixed() -> Self {
+        GenOpts { mix_ref_classes: true, ..Self::extended() }
     }
     /// the subset C02 calls core syntax
     pub fn core() -> Self {
-        GenOpts { extended: false, core: true, max_sections: 3, max_blocks: 4, max_items: 7, timers_need_time: true }
+        GenOpts { extended: false, core: true, max_sections: 3, max_blocks: 4, max_items: 7, timers_need_time: true, mix_ref_classes: false }
     }
 }
 
@@ -431,7 +438,8 @@ impl<'a> Gen<'a> {
                 }
             }
             let can_qty = def.in_step || !def.def_has_qty;
-            let qty = if can_qty && self.rng.chance(2, 3) { Some(self.qty(kind, def.class)) } else { None };
+            let class = if self.o.mix_ref_classes && self.rng.coin() { None } else { def.class };
+            let qty = if can_qty && self.rng.chance(2, 3) { Some(self.qty(kind, class)) } else { None };
             if let Some(q) = &qty {
                 let c = if kind == Kind::Cookware { (q.val.is_text(), UnitClass::None) } else { Self::class_of(q) };
                 let d = if kind == Kind::Ingredient { &mut self.idefs[last] } else { &mut self.cdefs[last] };
@@ -651,7 +659,7 @@ pub fn gen_spec(rng: &mut Rng, o: &GenOpts) -> Spec {
         for i in 0..n {
             let (k, v) = match g.rng.below(9) {
                 0 => ("title".to_string(), FrontVal::Str(g.rng.pick(&["Pasta al forno", "Crème brûlée", "Test 1"]).to_string())),
-                1 => ("servings".to_string(), if g.rng.coin() { FrontVal::Int(*g.rng.pick(&[1, 2, 4, 12])) } else { FrontVal::IntList(vec![2, 4, 6]) }),
+                1 => ("servings".to_string(), if g.rng.coin() { FrontVal::Int(*g.rng.pick(&[1, 2, 4, 12])) } else { FrontVal::IntList(g.rng.pick(&[&[2i64, 4, 6][..], &[4, 2], &[6, 2, 4], &[8, 4, 12], &[3]]).to_vec()) }),
                 2 => ("tags".to_string(), FrontVal::List(vec!["quick".into(), "vegan".into()])),
                 3 => ("time".to_string(), FrontVal::Str(g.rng.pick(&["1h30m", "45m", "2h"]).to_string())),
                 4 => ("nested".to_string(), FrontVal::Map(vec![("a".into(), "b".into()), ("c".into(), "d e".into())])),
@@ -711,7 +719,7 @@ pub fn gen_spec(rng: &mut Rng, o: &GenOpts) -> Spec {
                         g.rng.pick(META_KEYS).split(' ').map(|s| s.to_string()).collect()
                     };
                     let value = if key[0] == "servings" {
-                        vec![g.rng.pick(&["2", "4", "2|4|8", "12"]).to_string()]
+                        vec![g.rng.pick(&["2", "4", "2|4|8", "12", "4|2", "6|3|12", "10|5"]).to_string()]
                     } else {
                         words(g.rng, TEXT_WORDS, 1, 3)
                     };
